@@ -289,6 +289,8 @@ def upload_block(idx, sub, blksize, ack_fn=None, next_blksize_fn=None, crc=False
         if len(resp) > max_segs:
             raise Deviation("blk-up-too-many-segments", "block %d: %d segments for block size %d" % (blocks, len(resp), max_segs))
         need = (remaining + 6) // 7
+        if size == 0:
+            need = 1                  # an empty object is delivered as one last segment without data
         want = min(max_segs, need)
         if len(resp) != want:
             raise Deviation("blk-up-segment-count", "block %d: %d segments, expected %d (blksize %d, %d bytes missing)" % (blocks, len(resp), want, max_segs, remaining))
@@ -321,7 +323,7 @@ def upload_block(idx, sub, blksize, ack_fn=None, next_blksize_fn=None, crc=False
         nb = cur_bs if next_blksize_fn is None else next_blksize_fn(blocks)
         resp = yield bytes([0xA2, k, nb, 0, 0, 0, 0, 0])
         cur_bs = nb
-        if len(data) >= size:
+        if len(data) >= size and (size > 0 or k >= 1):
             r = _one(resp, "block upload end")
             code = _is_abort(r, idx, sub, "block upload end")
             if code is not None:
@@ -329,7 +331,7 @@ def upload_block(idx, sub, blksize, ack_fn=None, next_blksize_fn=None, crc=False
             if (r[0] & 0xE3) != 0xC1:
                 raise Deviation("blk-up-end-cmd", "expected C1|n<<2, got " + r.hex())
             n = (r[0] >> 2) & 7
-            want_n = (7 - size % 7) % 7
+            want_n = (7 - size % 7) % 7 if size else 7
             if n != want_n:
                 raise Deviation("blk-up-end-n", "end frame n=%d, expected %d for %d bytes" % (n, want_n, size))
             if not crc and r[1:8] != bytes(7) and r[3:8] != bytes(5):
